@@ -7,6 +7,7 @@ import os
 from fdlstatic import cfg as cfg_lib
 from fdlstatic.ctx import Ctx, kwarg
 from fdlstatic.model import AnalysisError, unparse, walk_function, walk_stmts
+from fdlstatic import roles
 from fdlstatic.report import RuleSet
 from fdlstatic.rules import common, sigrules
 
@@ -174,10 +175,35 @@ def run(ctx: Ctx, rs: RuleSet, tier: str):
         factories[q] = (f, call)
   for q, (f, call) in sorted(factories.items()):
     sid = kwarg(call, 'sequence_id')
+
+    def fresh_id(e, scope, depth=0):
+      # next(<the counter>), or a parameter that every caller fills with it
+      if isinstance(e, ast.Call) and isinstance(e.func, ast.Name) and (
+          e.func.id == 'next') and len(e.args) == 1 and unparse(
+              e.args[0]) == counter:
+        return True
+      if isinstance(e, ast.Name) and scope is not None and (
+          e.id in scope.params) and depth < 2 and not scope.is_lambda:
+        sites_ = [(p.funcs.get(q2), c2) for q2, ss in ctx.cg.call_sites.items()
+                  for c2, callees, _ in ss if scope.qualname in callees]
+        if not sites_:
+          return False
+        for caller, c2 in sites_:
+          b = ctx.bound_args(c2, caller) if caller is not None else None
+          good = bool(b) and e.id in b and fresh_id(b[e.id], caller, depth + 1)
+          # one obligation per caller of the relaying factory
+          rs.check(good, rule, f'{caller.qualname if caller else "?"}:'
+                   f'{scope.name}(...)',
+                   f'passes {unparse(b[e.id]) if b and e.id in b else None} '
+                   f'as `{e.id}` of {scope.name}',
+                   ctx.loc(caller, c2) if caller else '')
+          if not good:
+            return False
+        return True
+      return False
+
     ok = (f is not None and f.module.name == H and sid is not None and
-          isinstance(sid, ast.Call) and isinstance(sid.func, ast.Name) and
-          sid.func.id == 'next' and len(sid.args) == 1 and
-          unparse(sid.args[0]) == counter)
+          fresh_id(sid, f))
     loc_arg = kwarg(call, 'location')
     # the provider: the module global, or the attribute of the thread-local
     # state object
@@ -226,22 +252,30 @@ def run(ctx: Ctx, rs: RuleSet, tier: str):
     d = f'{len(appends)} append(s)'
     if ok:
       n, e = appends[0]
-      recv = e.func.value
+      recv = roles.deref(f, e.func.value)
       key_ok = (isinstance(recv, ast.Subscript) and
                 unparse(recv.value) == f.params[0] and
                 unparse(recv.slice) == f.params[1])
-      a = e.args[0] if e.args else None
+      a = roles.deref(f, e.args[0]) if e.args else None
       fac_ok = (isinstance(a, ast.Call) and
                 p.resolve(a.func, f) == f'{H}.{factory}' and
                 [unparse(x) for x in a.args] == f.params[1:])
-      guards = [m for m in g.nodes() if g.kind[m] == 'if' and isinstance(
-          g.stmt[m].test, ast.Call) and p.resolve(
-              g.stmt[m].test.func, f) == f'{H}.tracking_enabled']
-      guarded = bool(guards) and all(
-          n in g.reach([x for x, lab in g.succ[m] if lab == 'true'],
-                       labels=cfg_lib.NO_EXC) and
-          n not in g.reach([x for x, lab in g.succ[m] if lab == 'false'],
-                           labels=cfg_lib.NO_EXC) for m in guards)
+      from fdlstatic import dispatch
+
+      def tracking(v):
+        def ev(t):
+          if isinstance(t, ast.Call) and p.resolve(
+              t.func, f) == f'{H}.tracking_enabled' and not t.args:
+            return v
+          return None
+        return ev
+
+      has_test = any(g.kind[m] in ('if', 'while') and any(
+          isinstance(x, ast.Call) and p.resolve(
+              x.func, f) == f'{H}.tracking_enabled'
+          for x in ast.walk(g.stmt[m].test)) for m in g.nodes())
+      guarded = has_test and n not in dispatch.reach_atoms(
+          g, tracking(False)) and n in dispatch.reach_atoms(g, tracking(True))
       ok = key_ok and fac_ok and guarded
       d = (f'appends {factory}({", ".join(f.params[1:])}) to self[param_name]: '
            f'key={key_ok} factory={fac_ok} guarded={guarded}')
